@@ -242,8 +242,8 @@ theorem fold_notDecl : ∀ (e : Expr) (g : CEnv) (e' : Expr), GConst g → fold 
     obtain ⟨⟨_, _⟩, _, h⟩ := bind_ok h
     nd_finish
   | .modE .., g, e', hg, h => by simp [fold, unsup] at h
-  | .whileSet .., g, e', hg, h => by simp [fold, unsup] at h
-  | .forE .., g, e', hg, h => by simp [fold, unsup] at h
+  | .whileSet _ _ _ _, g, e', hg, h => by simp only [fold] at h; nd_auto
+  | .forE _ _ _, g, e', hg, h => by simp only [fold] at h; nd_auto
   | .set .., g, e', hg, h => by simp [fold, unsup] at h
   | .destruct .., g, e', hg, h => by simp [fold, unsup] at h
   | .fndecl .., g, e', hg, h => by simp [fold, unsup] at h
@@ -296,6 +296,19 @@ theorem envOk_bind {g : CEnv} {env : Env} (h : EnvOk g env) (x : String) (v : Va
   · simp only [hxy, if_false, Bool.false_eq_true] at hl ⊢
     exact h y c cr' hl
 
+theorem envOk_bind2 {g : CEnv} {env : Env} (h : EnvOk g env) (x y : String) (v w : Val) :
+    EnvOk ((x, none, false) :: (y, none, false) :: g) ([(x, v), (y, w)] :: env) := by
+  intro z c cr' hl
+  simp only [CEnv.lookup] at hl
+  simp only [Env.lookup, frameLookup]
+  by_cases hxz : (x == z) = true
+  · simp [hxz] at hl
+  · simp only [hxz, if_false, Bool.false_eq_true] at hl ⊢
+    by_cases hyz : (y == z) = true
+    · simp [hyz] at hl
+    · simp only [hyz, if_false, Bool.false_eq_true] at hl ⊢
+      exact h z c cr' hl
+
 theorem gconst_of_envOk {g : CEnv} {env : Env} (h : EnvOk g env) : GConst g :=
   fun x c cr hl => (h x c cr hl).1
 
@@ -328,6 +341,8 @@ def covered : Expr → Bool
   | .matchE e arms => covered e && coveredA arms
   | .loop body => covered body
   | .while c body => condForm c && covered c && covered body
+  | .whileSet _ _ e body => covered e && covered body
+  | .forE _ it body => covered it && covered body
   | _ => false
 def coveredA : List Arm → Bool
   | [] => true
@@ -373,10 +388,17 @@ structure FoldAt (f : Nat) : Prop where
     Sim (bodyOnce f env b) (fun f' => bodyOnce f' env b')
   loopGo : ∀ g env b b', covered b = true → EnvOk g env → fold g b = .ok b' →
     Sim (loopGo f env b) (fun f' => loopGo f' env b')
+  whileSetGo : ∀ g env x ty e e' b b', covered e = true → covered b = true → EnvOk g env → fold g e = .ok e' →
+    fold ((x, none, false) :: g) b = .ok b' →
+    Sim (whileSetGo f env x ty e b) (fun f' => whileSetGo f' env x ty e' b')
+  forGo : ∀ g env x itv b b', covered b = true → EnvOk g env →
+    fold ((x, none, false) :: ("$con", none, false) :: g) b = .ok b' →
+    Sim (forGo f env x itv b) (fun f' => forGo f' env x itv b')
 
 theorem foldAt_zero : FoldAt 0 := by
   constructor <;> intros <;>
-    simp only [eval, evalOpt, evalList, evalFields, evalStmtValue, evalSeq, evalArms, candGo, bodyOnce, loopGo] <;>
+    simp only [eval, evalOpt, evalList, evalFields, evalStmtValue, evalSeq, evalArms, candGo, bodyOnce, loopGo,
+      whileSetGo, forGo] <;>
     exact Sim.fuel _
 
 /-- a side condition of an induction hypothesis: in the context, or a conjunct of `hc` -/
@@ -1424,6 +1446,26 @@ theorem foldAt_succ (f : Nat) (ihs : ∀ k, k ≤ f → FoldAt k) : FoldAt (f + 
     case block body => exact fold_block f ih g env body e' hc henv hf
     case loop body => simp only [fold] at hf; structural ih
     case «while» c body => exact fold_while f ihs g env c body e' hc henv hf
+    case whileSet x ty e body =>
+      simp only [fold] at hf
+      obtain ⟨e2, he2, hf2⟩ := bind_ok hf
+      obtain ⟨b2, hb2, hf3⟩ := bind_ok hf2
+      simp only [Except.ok.injEq] at hf3; subst hf3
+      simp only [covered, Bool.and_eq_true] at hc
+      apply Sim.shift
+      simp only [eval]
+      exact ih.whileSetGo g env x ty e e2 body b2 hc.1 hc.2 henv he2 hb2
+    case forE x it body =>
+      simp only [fold] at hf
+      obtain ⟨it2, hit2, hf2⟩ := bind_ok hf
+      obtain ⟨b2, hb2, hf3⟩ := bind_ok hf2
+      simp only [Except.ok.injEq] at hf3; subst hf3
+      simp only [covered, Bool.and_eq_true] at hc
+      apply Sim.shift
+      simp only [eval]
+      refine Sim.bind (ih.eval g env it it2 hc.1 henv hit2) (fun itv => ?_)
+      exact ih.forGo (("$iter", none, false) :: g) ([("$iter", itv)] :: env) x itv body b2 hc.2
+        (envOk_bind henv "$iter" itv) hb2
     case matchE e arms => simp only [fold] at hf; structural ih
     case ifSet x ty e body els =>
       cases els with
@@ -1536,6 +1578,32 @@ theorem foldAt_succ (f : Nat) (ihs : ∀ k, k ≤ f → FoldAt k) : FoldAt (f + 
     apply Sim.shift
     simp only [loopGo]
     sim_auto ih
+
+  · intro g env x ty e e' b b' hce hcb henv he hb
+    apply Sim.shift
+    simp only [whileSetGo]
+    refine Sim.bind (ih.eval g env e e' hce henv he) (fun v => ?_)
+    split
+    · refine Sim.bind (ih.bodyOnce _ _ b b' hcb (envOk_bind henv x v) hb) (fun go => ?_)
+      cases go with
+      | false => exact Sim.const _
+      | true => exact ih.whileSetGo g env x ty e e' b b' hce hcb henv he hb
+    · exact Sim.const _
+  · intro g env x itv b b' hcb henv hb
+    apply Sim.shift
+    simp only [forGo]
+    refine Sim.bind (Sim.of_mono (fun a c h => (monoAt_le a c h).callFn itv []) f) (fun r => ?_)
+    split
+    · next c v =>
+      cases c with
+      | false => exact Sim.const _
+      | true =>
+        simp only [if_true]
+        refine Sim.bind (ih.bodyOnce _ _ b b' hcb (envOk_bind2 henv x "$con" v (.bool true)) hb) (fun go => ?_)
+        cases go with
+        | false => exact Sim.const _
+        | true => exact ih.forGo g env x itv b b' hcb henv hb
+    · exact Sim.const _
 
 theorem foldAt_le : ∀ f k, k ≤ f → FoldAt k
   | 0, k, h => by
